@@ -259,15 +259,31 @@ Qed.
 Definition dt_16_at_512 : f64 := f64_of_bits 4584664420663164928.   (* 16 / 512 s *)
 Definition spt_zero : cspeed f64 := SecondsPerTick (f64_of_bits 0).
 Definition tps_1e300 : cspeed f64 := TicksPerSecond (f64_of_bits 9094988921128908188).
+(** two floats with the same sign, mantissa and exponent are equal: the boundedness proof is an
+    equality between booleans, which is unique (no axiom) *)
+Definition same (a b : f64) : Prop :=
+  match a, b with
+  | BinarySingleNaN.B754_zero s, BinarySingleNaN.B754_zero s' => s = s'
+  | BinarySingleNaN.B754_infinity s, BinarySingleNaN.B754_infinity s' => s = s'
+  | BinarySingleNaN.B754_nan, BinarySingleNaN.B754_nan => True
+  | BinarySingleNaN.B754_finite s m e _, BinarySingleNaN.B754_finite s' m' e' _ => s = s' /\ m = m' /\ e = e'
+  | _, _ => False
+  end.
+Lemma same_eq (a b : f64) : same a b -> a = b.
+Proof.
+  destruct a as [s|s| |s m e p], b as [s'|s'| |s' m' e' p']; cbn [same]; try contradiction.
+  - intros ->. reflexivity.
+  - intros ->. reflexivity.
+  - reflexivity.
+  - intros (-> & -> & ->). f_equal. apply UIP_dec. apply Bool.bool_dec.
+Qed.
+
 Lemma stuck_witnesses :
   stuck_increment spt_zero dt_16_at_512 /\ stuck_increment tps_1e300 dt_16_at_512 /\
   clock_update (fun _ _ => f64_of_bits 0) 200 (fresh_ticking spt_zero) dt_16_at_512 no_info = Hang /\
   clock_update (fun _ _ => f64_of_bits 0) 200 (fresh_ticking tps_1e300) dt_16_at_512 no_info = Hang.
 Proof.
-  (* two finite floats with the same sign, mantissa and exponent are equal: the boundedness proof is
-     an equality between booleans, which is unique (no axiom) *)
-  assert (T : forall (a b : f64), a = b -> True) by (intros; exact I).
-  split; [split; vm_compute; first [reflexivity | f_equal; apply Eqdep_dec.UIP_dec; apply Bool.bool_dec]|].
-  split; [split; vm_compute; first [reflexivity | f_equal; apply Eqdep_dec.UIP_dec; apply Bool.bool_dec]|].
+  split; [split; [vm_compute; reflexivity|apply same_eq; vm_compute; reflexivity]|].
+  split; [split; [vm_compute; reflexivity|apply same_eq; vm_compute; repeat split; reflexivity]|].
   split; vm_compute; reflexivity.
 Qed.
